@@ -36,7 +36,18 @@ def _variants(R, p: str) -> str:
 
 def _cases(R, G, t, n):
     out = []
-    for _ in range(n):
+    for j in range(n):
+        if j % 6 == 5:
+            # a designed pair: one directory listed twice with different filters / one literal start as a directory and as anything
+            pp = K.gen_pair(R, G, t)
+            fl = (G.GLOBSTAR if R.random() < 0.8 else 0) | (G.MARK if R.random() < 0.2 else 0) | (G.NOUNIQUE if R.random() < 0.2 else 0)
+            if R.random() < 0.3:
+                if R.random() < 0.5:
+                    pp, fl = '|'.join(pp), fl | G.SPLIT
+                else:
+                    pp, fl = '{' + ','.join(pp) + '}', fl | G.BRACE
+            out.append(K.Case(pp, fl, None, R.choice(['root_dir', 'root_dir', 'cwd', 'dir_fd'])))
+            continue
         k = R.randint(1, 4)
         pats = [_variants(R, R.choice(BASE)) for _ in range(k)]
         if R.random() < 0.25 and k > 1:
@@ -100,6 +111,26 @@ def run(ck: Check) -> int:
         return (lambda s: s.lower()) if ci else (lambda s: s)
 
     def on_case(t, c, st, ev, ms, mev):
+        # pathlib: "never makes one file appear twice" for a list whose patterns reach one entry with and without a trailing separator
+        # (added after seeded change C13h: a fast path of `_pathlib_norm` returned before stripping the trailing separator, so the keys
+        # of `pkg` and `pkg/` differed while both become the same Path)
+        if st == 'ok' and c.mode == 'root_dir' and not c.flags & (G.NOUNIQUE | 0x8000000) and not isinstance(c.pats, str) and len(c.pats) > 1 \
+                and not any(q.startswith('/') for q in c.pats) and not t.cyclic:
+            from wcmatch import pathlib as WP
+            pfl = c.flags & (G.GLOBSTAR | G.MARK | G.DOTGLOB | G.EXTGLOB | G.NEGATE | G.MINUSNEGATE | G.NEGATEALL | G.BRACE | G.SPLIT | G.IGNORECASE
+                             | G.CASE | G.NODIR | G.MATCHBASE | G.GLOBSTARLONG | G.SCANDOTDIR | G.NODOTDIR)
+            try:
+                with common.time_limit(10):
+                    kw0 = {} if c.exclude is None else {'exclude': c.exclude}
+                    pl = list(WP.Path(t.root).glob(list(c.pats), flags=pfl, **kw0))
+                stats['pathlib_lists'] = stats.get('pathlib_lists', 0) + 1
+                if len(set(pl)) != len(pl) and not (pfl & G.IGNORECASE and not pfl & G.CASE):
+                    dup = next(str(x) for x in pl if pl.count(x) > 1)
+                    found.append(Failing(f'Path.glob returned {os.path.relpath(dup, t.root)!r} twice without NOUNIQUE',
+                                         {**c.to_json(G, t), 'api': 'pathlib.Path.glob'}, 'each path once', [os.path.relpath(str(x), t.root) for x in pl][:12],
+                                         'wcmatch/glob.py:Glob._pathlib_norm / _is_unique'))
+            except (common.CallTimeout, ValueError):
+                pass
         if st != 'ok' or c.mode == 'bytes' or c.flags & 0x8000000:
             return
         res = [p for k, p in ev if k == 'y']
